@@ -195,6 +195,10 @@ func (bc *BlockChain) GetParentByHeight(height uint32, sonBlockHash common.Hash)
 	} else {
 		// unstable block
 		block, err = bc.db.GetUnConfirmByHeight(height, sonBlockHash)
+		if err == store.ErrBlockNotExist && height <= bc.StableBlock().Height() {
+			// the block became stable after the test above
+			block, err = bc.db.GetBlockByHeight(height)
+		}
 	}
 	if err != nil {
 		log.Error("load block by height fail", "height", height, "err", err)
